@@ -39,13 +39,40 @@ theorem blocks_refine_bytes_gen (cfg : Cfg) (blocks : List (List Byte)) (last : 
   SlipVerif.Theorems.C02.blocks_refine_bytes genTables cfg blocks last
 
 /-- the one-form position lies within the text, for the current tables -/
-theorem readOne_position_le_gen (cfg : Cfg) (bs : List Byte) (o : Obj) (pos : Nat)
+theorem readOne_position_partial_gen (cfg : Cfg) (bs : List Byte) (o : Obj) (pos : Nat)
     (h : readOne genTables cfg bs = .ok (o, pos)) : pos ≤ bs.length :=
-  SlipVerif.Theorems.C02.readOne_position_le genTables step_total cfg bs o pos h
+  SlipVerif.Theorems.C02.readOne_position_partial genTables step_total cfg bs o pos h
 
--- samples (tests, not theorems): `(a "b` stops inside a string inside a list; `(a) ` does not
+/-- the first form of the whole-text read is what one-form mode returns, for the current tables -/
+theorem readOne_is_first_form_gen (cfg : Cfg) (bs : List Byte) (o : Obj) (pos : Nat) (code : List Obj) (p : Nat)
+    (hone : readOne genTables cfg bs = .ok (o, pos))
+    (hall : readAll genTables { cfg with one := false } bs = .ok code p) : code.head? = some o :=
+  SlipVerif.Theorems.C02.readOne_is_first_form genTables cfg bs o pos code p hone hall
+
+/-! Samples (tests, not theorems): concrete, non-trivial instances of the hypotheses of the general
+    theorems in Theorems/C02, on the simplest possible texts under the current tables.
+    `(a "b` stops inside a string inside a list (`truncation_is_signalled`); `(a) ` is closed;
+    `ab c` / `(a) b` / `"s" x` have a first form and a position (`readOne_*`). -/
+section samples
+def live (bs : List Byte) : Bool := (run1 genTables {} init1 bs).core.halt.isNone
+def depth (bs : List Byte) : Nat := (run1 genTables {} init1 bs).core.starts.length
+def onePos (bs : List Byte) : Option Nat :=
+  match readOne genTables {} bs with
+  | .ok (_, pos) => some pos
+  | .error _ => none
+def isErr : Result → Bool
+  | .err _ _ => true
+  | .ok _ _ => false
+
+example : live [40, 97, 32, 34, 98] = true ∧ depth [40, 97, 32, 34, 98] = 1 := by decide +kernel
 example : (run1 genTables {} init1 [40, 97, 32, 34, 98]).mode = .str .string := by decide +kernel
-example : (run1 genTables {} init1 [40, 97, 32, 34, 98]).core.starts = [0] := by decide +kernel
-example : (run1 genTables {} init1 [40, 97, 41, 32]).core.starts = [] := by decide +kernel
+example : isErr (readAll genTables {} [40, 97, 32, 34, 98]) = true := by decide +kernel
+example : live [40, 97, 41, 32] = true ∧ depth [40, 97, 41, 32] = 0 := by decide +kernel
+example : isErr (readAll genTables {} [40, 97, 41, 32]) = false := by decide +kernel
+example : onePos [97, 98, 32, 99] = some 2 := by decide +kernel            -- ab c
+example : onePos [40, 97, 41, 32, 98] = some 3 := by decide +kernel        -- (a) b
+example : onePos [34, 115, 34, 32, 120] = some 3 := by decide +kernel      -- "s" x
+example : onePos [40, 97] = none := by decide +kernel                      -- (a
+end samples
 
 end SlipVerif.Theorems.GenC02
